@@ -156,11 +156,12 @@ def h_entry(eng):
 
     pqr_header = eng.flag("pqr_starts_with_remark")
     dx_header = eng.flag("dx_starts_with_comment")
-    special = [None, "inf", "nan", "-inf", "infinity"][eng.choice("non_finite_value", 5)]
+    special = [None, "inf", "nan", "-inf", "infinity", "3.000000e+39", "-7.000000e+45", "1.000000e-42", "6.250000e-120", "4.500000e+120"][eng.choice("non_finite_value", 10)]  # also finite values beyond the single-precision range
+    level = ["ERROR", "INFO", "DEBUG"][eng.choice("log_level", 3)]
     where = eng.choice("its_position", 7)
     atoms = [PQR_KINDS[0][1](1), PQR_KINDS[1][1](2), PQR_KINDS[0][1](3)]
     pqr = (["REMARK   1 PQR file generated by PDB2PQR\n"] if pqr_header else []) + atoms + ["TER\n", "END\n"]
-    vals = [f"{0.5 * k - 1.25:.6e}" for k in range(7)]
+    vals = [f"{v:.6e}" for v in (0.75, -1.25, 3.5, 0.0, -0.25, 2.0, 1.5)]  # not in ascending order
     if special:
         vals[where] = special
     dx = (["# Data from APBS\n"] if dx_header else []) + ["object 1 class gridpositions counts 1 1 7\n", "origin 0.0 0.0 0.0\n", "delta 1.0 0.0 0.0\n", "delta 0.0 1.0 0.0\n", "delta 0.0 0.0 1.0\n", "object 2 class gridconnections counts 1 1 7\n", "object 3 class array type double rank 0 items 7 data follows\n"]
@@ -171,12 +172,22 @@ def h_entry(eng):
         names = [os.path.join(tmp, n) for n in ("in.dx", "in.pqr", "out.cube")]
         open(names[0], "w").writelines(dx)
         open(names[1], "w").writelines(pqr)
-        sys.argv = ["dx2cube", "--log-level", "ERROR", *names]
+        sys.argv = ["dx2cube", "--log-level", level, *names]
+        import logging as _logging
+
+        lg = _logging.getLogger()  # basicConfig(level=...) sets the ROOT level; main's logger is "PDB2PQR<version>", io's "pdb2pqr.io"
+        old_level = lg.level
         try:
+            # logging.basicConfig is kept from reconfiguring the checker's root logger; the requested level is set on the
+            # root logger (level only, no handler), so that code guarded by isEnabledFor() runs as it would from the command line
             with patched((main.logging, "basicConfig", lambda *a, **k: None)):
-                main.dx_to_cube()
+                lg.setLevel(getattr(_logging, level))
+                try:
+                    main.dx_to_cube()
+                finally:
+                    lg.setLevel(old_level)
         except (ValueError, TypeError, IndexError) as e:
-            eng.check(False, "conversion-runs", note=f"dx2cube raised {type(e).__name__}: {str(e)[:80]} (pqr header {pqr_header}, dx header {dx_header}, value {special} at {where})")
+            eng.check(False, "conversion-runs", note=f"dx2cube raised {type(e).__name__}: {str(e)[:80]} (pqr header {pqr_header}, dx header {dx_header}, value {special} at {where}, log level {level})")
             return
         out = open(names[2]).read().split("\n")
     finally:
@@ -187,8 +198,8 @@ def h_entry(eng):
     toks = [t for ln in out[6 + 3 :] for t in ln.split()]
     eng.check(len(toks) == 7, "value-count", note=f"cube holds {len(toks)} values, the DX file 7 (value {special} at position {where}, DX starts with a comment: {dx_header})")
     if len(toks) == 7:
-        ok = all((t.lower().lstrip("+").startswith(v[:3].lower()) if v.lstrip("-")[:3] in ("inf", "nan") else abs(float(t) - float(v)) <= 1e-5 * max(1.0, abs(float(v)))) for t, v in zip(toks, vals))
-        eng.check(ok, "values-in-order", note=f"cube values {toks} for DX values {vals}")
+        ok = all((t.lower().lstrip("+").startswith(v[:3].lower()) if v.lstrip("-")[:3] in ("inf", "nan") else abs(float(t) - float(v)) <= 1e-5 * abs(float(v)) + 1e-300) for t, v in zip(toks, vals))
+        eng.check(ok, "values-in-order", note=f"cube values {toks} for DX values {vals} (log level {level})")
 
 
 def h_written_atoms(eng, ws, kc):
